@@ -274,10 +274,9 @@ func cmdCheck(args []string) int {
 	for i, v := range viols {
 		id := fmt.Sprintf("v%d", i)
 		violByID[id] = v
-		if v.Kind == "nontermination" {
-			continue // replayed alone, beside a watchdog (below): it would hang the common run
-		}
-		cases = append(cases, nativeCase{Pkg: v.Pkg, ID: id, Harness: v.Harness, Params: v.Params, Inputs: v.Model})
+		// counterexamples are replayed one per process, apart from the sampled paths (below): a
+		// replay that ends in a fatal error (deadlock under synctest, a panic in another goroutine)
+		// takes the test binary down and must not take other cases with it
 	}
 	validated, mismatches := 0, 0
 	nativeRetries := 0
@@ -293,7 +292,43 @@ func cmdCheck(args []string) int {
 		nativeS = time.Since(tn).Seconds()
 		if err != nil {
 			inconclusive = append(inconclusive, "native replay failed: "+err.Error())
+			if len(viols) > 0 {
+				err = nil // on a broken tree sampled paths may die; the counterexamples are replayed below
+			}
 		}
+	}
+	if results == nil {
+		results = map[string]*nativeResult{}
+	}
+	if pp.Native != "none" {
+		// one process per counterexample, one counterexample per (harness, label), at most 8
+		tn := time.Now()
+		seenKey := map[string]bool{}
+		nrun := 0
+		vids := make([]string, 0, len(violByID))
+		for id := range violByID {
+			vids = append(vids, id)
+		}
+		sort.Slice(vids, func(i, j int) bool {
+			a, _ := strconv.Atoi(vids[i][1:])
+			b, _ := strconv.Atoi(vids[j][1:])
+			return a < b
+		})
+		for _, id := range vids {
+			v := violByID[id]
+			key := v.Pkg + "|" + v.Harness + "|" + v.Label
+			if v.Kind == "nontermination" || v.Kind == "race" || seenKey[key] || nrun >= 8 {
+				continue
+			}
+			seenKey[key] = true
+			nrun++
+			if r2, err2 := c.runNative(prog, specs, []nativeCase{{Pkg: v.Pkg, ID: id, Harness: v.Harness, Params: v.Params, Inputs: v.Model}}, pkgOf, pp.Native); err2 == nil || len(r2) > 0 {
+				for id2, r := range r2 {
+					results[id2] = r
+				}
+			}
+		}
+		nativeS += time.Since(tn).Seconds()
 	}
 	sampleOK := func(s *PathSample, r *nativeResult) bool {
 		if r == nil || !r.Seen || r.Panic != "" || len(r.Fails) > 0 || r.Assume || len(r.Obs) != len(s.obs) {
